@@ -2,6 +2,7 @@
 from ..core import *
 from .. import harness, gen, pyref
 from ..curve import *
+from .. import surface
 
 VO = ['Props/C02.vo']
 FILES = ['Props/C02.v', 'Proofs/Codec.v', 'Proofs/BytesLemmas.v', 'Proofs/ByteLevel.v', 'Proofs/Final.v', 'Tie/Curve.v', 'Proofs/Instance.v', 'Proofs/SqrtTS.v', 'Proofs/SqrtSarkar.v']
@@ -83,5 +84,8 @@ def search(ctx, scale, hints):
                                   {'build': b, 'script': [l], 'output': [o]}, {'class': 'short_stream', 'build': b, 'op': l.split()[0]}))
     return fails
 
+def always(ctx, scale):
+    return surface.c02_encoding_type(ctx, None, scale)
+
 def run_check(ctx):
-    run_property(ctx, 'Props.C02', VO, FILES, build_scripts, search, 'C02 (exact acceptance set) is no longer shown to hold')
+    run_property(ctx, 'Props.C02', VO, FILES, build_scripts, search, 'C02 (exact acceptance set) is no longer shown to hold', always=always)
